@@ -110,6 +110,14 @@ func GenCase(r *core.Rng, id int, pDecor, pBad float64) *Case {
 			cfg.StructReferences = true
 		}
 	}
+	if id%8 == 7 {
+		// one input type, two operations with different operation-level options, the second
+		// regenerating the struct under its own `typename`
+		if si := gen.SharedInputTwoOpsDefs(s, "SI", (id/8)%2); si != nil {
+			defs = append(defs, si...)
+			l = gen.SingleFile(len(defs))
+		}
+	}
 	// settings interact with options: an explicit `omitempty: false` matters most under
 	// use_struct_references (whose default is omitempty), an explicit `pointer: false` under
 	// optional: pointer
